@@ -569,7 +569,55 @@ def gen_consts(repo):
     out.append("\nend LLFree.Gen")
     return "\n".join(out) + "\n"
 
-GENERATORS = {'Consts': gen_consts, 'Fza': gen_fza}
+def camel(name):
+    return name[0].lower() + name[1:]
+
+def gen_leaf(repo):
+    """eval/src/classes.rs: enum Count and its two methods (Nat mode)"""
+    src = read(os.path.join(repo, 'eval/src/classes.rs'))
+    m = re.search(r"\benum\s+Count\s*\{(.*?)\}", src, re.S)
+    if not m: raise TranslateError("enum Count not found")
+    variants = [v.strip() for v in m.group(1).split(',') if v.strip()]
+    for v in variants:
+        if not re.fullmatch(r"[A-Z][A-Za-z0-9]*", v): raise TranslateError(f"Count variant {v!r}")
+    out = ["/- GENERATED by tools/rs2lean.py from eval/src/classes.rs — do not edit. -/",
+           "namespace LLFree.Gen", "",
+           "/-- `enum Count` (slot-count kinds of a class configuration) -/",
+           "inductive Count where"]
+    for v in variants: out.append(f"  | {camel(v)}")
+    out.append("deriving Repr, DecidableEq\n")
+    out.append("def Count.all : List Count := [" + ", ".join('.' + camel(v) for v in variants) + "]\n")
+    methods = {'div_ceil': lambda R, a: f"(({R} + {a[0]} - 1) / {a[0]})"}
+    em = Emit('nat', methods=methods)
+    def method(name, lean_name, sig, ret):
+        params, body = extract_fn(src, name, within='impl Count')
+        if re.sub(r"\s+", "", params) != sig:
+            raise TranslateError(f"Count::{name}: unexpected signature ({params})")
+        ast = parse_fn_body(body)
+        if ast[1] or ast[2][0] != 'match' or ast[2][1] != ('path', 'self'):
+            raise TranslateError(f"Count::{name}: body is not `match self {{..}}`")
+        arms = []
+        seen = []
+        for pats, guard, bodye in ast[2][2]:
+            if guard is not None: raise TranslateError("guard")
+            for p in pats:
+                if p[0] != 'pctor' or not p[1].startswith('Self::') or p[2]:
+                    raise TranslateError(f"Count::{name}: pattern {p}")
+                v = p[1][len('Self::'):]
+                if v not in variants: raise TranslateError(f"unknown variant {v}")
+                seen.append(v)
+                arms.append(f"  | .{camel(v)} => {em.ex(bodye)}")
+        if sorted(seen) != sorted(variants): raise TranslateError(f"Count::{name}: arms {seen} do not cover {variants}")
+        args = " ".join(f"({a.split(':')[0]} : Nat)" for a in sig.split(',')[1:])
+        out.append(f"/-- `Count::{name}` -/")
+        out.append(f"def Count.{lean_name} (self : Count) {args} : {ret} :=\n  match self with")
+        out.extend(arms); out.append("")
+    method('to_count', 'toCount', 'self,cores:usize', 'Nat')
+    method('to_local', 'toLocal', 'self,core:usize,cores:usize,pid:usize', 'Option Nat')
+    out.append("end LLFree.Gen")
+    return "\n".join(out) + "\n"
+
+GENERATORS = {'Consts': gen_consts, 'Fza': gen_fza, 'Leaf': gen_leaf}
 
 def write_if_changed(path, txt):
     if os.path.exists(path) and read(path) == txt: return False
